@@ -1,6 +1,7 @@
 # Author: Bohua Zhan
 
 import importlib
+from fractions import Fraction
 
 if importlib.util.find_spec("z3"):
     import z3
@@ -143,7 +144,11 @@ def convert(t, var_names, assms, to_real, ctx):
         elif t.is_greater():
             return rec(t.arg1) > rec(t.arg)
         elif t.is_divides():
-            return rec(t.arg1) / rec(t.arg)
+            a, b = rec(t.arg1), rec(t.arg)
+            if isinstance(a, (int, Fraction)) and isinstance(b, (int, Fraction)):
+                # exact arithmetic on numerals (Python's / gives floats); n / 0 = 0 in the HOL library
+                return Fraction(a) / b if b != 0 else 0
+            return a / b
         elif t.is_comb('of_nat', 1):
             if t.get_type() == RealType:
                 if t.arg.is_var() and t.arg.name not in bound_names:
